@@ -404,7 +404,7 @@ def grid(name, tier, rng):
         pool = "pool" in name
         geos = geo1d(7 if not th else 9, pool=pool)
         if not th:
-            geos = [geos[int(i)] for i in rng.choice(len(geos), 60, replace=False)]
+            geos = [geos[int(i)] for i in rng.choice(len(geos), 150, replace=False)]
         for (L, k, s, p, d) in geos:
             N, C = int(rng.integers(1, 3)), int(rng.integers(1, 3))
             a = {"xshape": [N, C, L], "kernel": k, "stride": s, "padding": p, "dilation": d}
@@ -421,7 +421,7 @@ def grid(name, tier, rng):
     elif name in ("conv2d", "max_pool2d", "avg_pool2d", "unfold", "fold"):
         pool = "pool" in name
         g1 = geo1d(6 if not th else 7, pool=pool)
-        n = 80 if not th else 1500
+        n = 200 if not th else 1500
         for i in range(n):
             (H, kh, sh, ph, dh) = g1[int(rng.integers(len(g1)))]
             (W, kw, sw, pw, dw) = g1[int(rng.integers(len(g1)))]
